@@ -320,15 +320,10 @@ FhExpr(s, l, c) ==
           H(n("obj-method-in"), 5, <<"{", "m", "(", ")", "{", "a", "in", "b", "}", "}">>),
           H(n("async-arrow-in-paren"), 5, <<"async", "k", "=>", "(", "k", "in", "o", ")">>),
           H(n("paren-arrow-in"), 5, <<"(", "k", "=>", "k", "in", "o", ")">>),
-          H(n("arrow-arrow-in-paren"), 5, <<"k", "=>", "j", "=>", "(", "k", "in", "j", ")">>),
           H(n("arrow-default-in"), 5, <<"(", "k", "=", "a", "in", "b", ")", "=>", "k">>),
           H(n("class-key-in"), 5, <<"class", "{", "[", "a", "in", "b", "]", "(", ")", "{", "}", "}">>),
-          H(n("obj-getter-in"), 5, <<"{", "get", "g", "(", ")", "{", "return", "a", "in", "b", "}", "}">>),
-          H(n("call-arg-in"), 5, <<"f", "(", "a", "in", "b", ")">>),
-          H(n("index-in"), 5, <<"a", "[", "a", "in", "b", "]">>),
           H(n("not-in-paren"), 5, <<"!", "(", "a", "in", "b", ")">>),
           H(n("or-in-paren"), 5, <<"a", "||", "(", "a", "in", "b", ")">>),
-          H(n("assign-in-paren"), 5, <<"x", "=", "(", "a", "in", "b", ")">>),
           H(n("fn-default-in"), 5, <<"function", "(", "p", "=", "a", "in", "b", ")", "{", "}">>)} ELSE {})
        ELSE IF c = "g" THEN
          {H(n("yield-in-paren"), 4, <<"yield", "(", "a", "in", "b", ")">>),
@@ -347,7 +342,7 @@ FhExpr(s, l, c) ==
   \cup (IF l = "3" \/ s # "i" THEN {} ELSE
          {H(n("seq"), 2, <<sub, ",", sub>>),
           H(n("cond"), 2, <<"c", "?", sub, ":", sub>>)}
-         \cup (IF Full THEN {H(n("paren-seq"), 2, <<"(", sub, ",", sub, ")">>)} ELSE {}))
+         \cup (IF Full /\ l = "1" THEN {H(n("paren-seq"), 2, <<"(", sub, ",", sub, ")">>)} ELSE {}))
 
 FhStmt(b, c) ==
   LET E(s) == FhE(s, "1", c)
@@ -365,8 +360,7 @@ FhStmt(b, c) ==
           P("init-let", TRUE, <<"let", "x", "=", E("i")>>)}
          \cup (IF Full THEN
          {P("init-const", TRUE, <<"const", "x", "=", E("i")>>),
-          P("init-var-2", TRUE, <<"var", "x", "=", E("i"), ",", "y", "=", E("i")>>),
-          P("init-assign", TRUE, <<"x", "=", E("i")>>),
+          P("init-var-2", TRUE, <<"var", "x", "=", "a", ",", "y", "=", E("i")>>),
           P("init-let-array-default", TRUE, <<"let", "[", "x", "=", E("d"), "]", "=", E("i")>>),
           P("init-var-obj-default", TRUE, <<"var", "{", "x", "=", E("d"), "}", "=", E("i")>>)} ELSE {})
     [] b = "Lhs" ->
@@ -445,6 +439,8 @@ IoOps(l, c) ==
   IF l = "3" THEN {}
   ELSE IF l = "1" THEN core \cup more \cup ctx \cup (IF Full THEN full ELSE {})
   ELSE core \cup ctx \cup (IF Full THEN fwd ELSE {})
+(* an identifier that charset=ascii prints with an escape, directly before the keyword operator (operand level 1 only) *)
+IoAstral == {P("in-astral", TRUE, <<"(", "\\u{20BB7}", "in", "b", ")">>), P("in-astral-bare", TRUE, <<"\\u{20BB7}", "in", "b">>)}
 IoIn == {P("in-paren", FALSE, <<"(", "a", "in", "b", ")">>), P("in-bare", TRUE, <<"a", "in", "b">>)}
         \cup (IF Full THEN {P("in-chain", TRUE, <<"a", "in", "b", "in", "c">>)} ELSE {})
 InOpNT == {"Prog"} \cup {IoX(l, c) : l \in Lvls, c \in Ctxs}
@@ -453,16 +449,16 @@ InOp(nt) ==
     {P("io-for-init", FALSE, <<"for", "(", "X1p", ";", ";", ")", ";">>),
      P("io-for-var-init", FALSE, <<"for", "(", "var", "x", "=", "X1p", ";", ";", ")", ";">>),
      P("io-gen-for-var-init", TRUE, <<"function", "*", "g", "(", ")", "{", "for", "(", "var", "x", "=", "X1g", ";", ";", ")", ";", "}">>),
-     P("io-async-for-var-init", TRUE, <<"async", "function", "h", "(", ")", "{", "for", "(", "var", "x", "=", "X1a", ";", ";", ")", ";", "}">>)}
+     P("io-async-for-var-init", TRUE, <<"async", "function", "h", "(", ")", "{", "for", "(", "var", "x", "=", "X1a", ";", ";", ")", ";", "}">>),
+     P("io-expr-stmt", TRUE, <<"x", "=", "X1p", ";">>)}
     \cup (IF Full THEN
     {P("io-for-let-init", TRUE, <<"for", "(", "let", "x", "=", "X1p", ";", ";", ")", ";">>),
      P("io-for-test", TRUE, <<"for", "(", ";", "X1p", ";", ")", ";">>),
      P("io-forin-annexb-init", TRUE, <<"for", "(", "var", "x", "=", "X1p", "in", "o", ")", ";">>),
      P("io-forin-rhs", TRUE, <<"for", "(", "x", "in", "X1p", ")", ";">>),
      P("io-forof-rhs", TRUE, <<"for", "(", "x", "of", "X1p", ")", ";">>),
-     P("io-gen-for-init", TRUE, <<"function", "*", "g", "(", ")", "{", "for", "(", "X1g", ";", ";", ")", ";", "}">>),
-     P("io-expr-stmt", TRUE, <<"x", "=", "X1p", ";">>)} ELSE {})
-  ELSE LET t == CHOOSE t \in Lvls \X Ctxs : nt = IoX(t[1], t[2]) IN IoOps(t[1], t[2]) \cup IoIn
+     P("io-gen-for-init", TRUE, <<"function", "*", "g", "(", ")", "{", "for", "(", "X1g", ";", ";", ")", ";", "}">>)} ELSE {})
+  ELSE LET t == CHOOSE t \in Lvls \X Ctxs : nt = IoX(t[1], t[2]) IN IoOps(t[1], t[2]) \cup IoIn \cup (IF t[1] = "1" /\ t[2] = "p" THEN IoAstral ELSE {})
 
 (* ------------------------------------------------------------- scopes *)
 (* Every statement kind that opens a scope or has clauses that the two passes of the compiler walk in a particular order, with *)
@@ -553,7 +549,13 @@ Scopes(nt) ==
           P("sc-destructure-obj-assign", TRUE, <<"(", "{", "[", "S", "]", ":", "a", "[", "S", "]", "=", "S", "}", "=", "S", ")", ";">>),
           P("sc-yield", TRUE, <<"function", "*", "g", "(", ")", "{", "x", "=", "yield", "S", ",", "yield", "*", "S", ";", "}">>),
           P("sc-await", TRUE, <<"async", "function", "h", "(", ")", "{", "x", "=", "await", "S", ",", "await", "S", ";", "}">>),
-          P("sc-export-default", TRUE, <<"export", "default", "S", ";">>)} ELSE {})
+          P("sc-export-default", TRUE, <<"export", "default", "S", ";">>),
+          \* label sets and declaration scopes of nested scope-opening statements
+          P("sc-label-label-continue", TRUE, <<"l", ":", "m", ":", "for", "(", ";", "S", ";", ")", "{", "L", "continue", "l", ";", "}">>),
+          P("sc-static-block-same-label", TRUE, <<"l", ":", "{", "class", "C", "{", "static", "{", "l", ":", "{", "L", "break", "l", ";", "}", "}", "}", "}">>),
+          P("sc-static-block-var-fn", TRUE, <<"class", "C", "{", "static", "{", "var", "v", "=", "S", ";", "function", "v", "(", ")", "{", "L", "}", "}", "}">>),
+          P("sc-fn-var-fn", TRUE, <<"function", "f", "(", ")", "{", "var", "v", "=", "S", ";", "function", "v", "(", ")", "{", "L", "}", "}">>),
+          P("sc-paren-string-then-with", TRUE, <<"(", "'use strict'", ")", ";", "with", "(", "S", ")", "B">>)} ELSE {})
 
 NonTerminalsOf(g) ==
   CASE g = "asi" -> {"Prog", "Line", "NL", "E", "Cont", "Post", "Op", "InFn", "InGen", "InLoop", "Semi"}
